@@ -116,7 +116,9 @@ def run(tier):
                 for k, (ic, oc) in enumerate([(1, vrl), (None, 2**20), (2, vrl + 2), (max(nrows - 1, 1), 2 * vrl), (None, vrl)]):
                     s2 = dict(spec)
                     s2['write'] = dict(spec['write'], input_chunk_size=ic, output_chunk_size=oc)
-                    res = filegen.write(s2, tmp, built=b)
+                    # the target path keeps what the previous write (or somebody else) left there: it must be replaced
+                    res = filegen.write(s2, tmp, built=b, fname='same_target.dlis',
+                                        prior=(None if k else b'leftover content of an older, longer file' * 997), keep_existing=True)
                     case = {'spec_index': si, 'spec': filegen.describe(spec), 'write_number': k + 1,
                             'input_chunk_size': ic, 'output_chunk_size': oc, 'same_DLISFile_object': True}
                     chk.case('same-object-rewrites', nontrivial_key=(si, 'rw', k))
